@@ -66,7 +66,8 @@ def gen_schedules(ctx, k, seed, num, depth):
     os.makedirs(d)
     for f in ("Election.tla", "ElectionGen.tla", "ElectionGen.cfg"):
         shutil.copy(os.path.join(ctx.specdir, f), d)
-    r = ctx.tlc("ElectionGen", "ElectionGen.cfg", workers=1, simulate="num=%d" % num, depth=depth + 2, seed=seed, cwd=d, timeout=600)
+    r = ctx.tlc("ElectionGen", "ElectionGen.cfg", workers=1, simulate="num=%d" % num, depth=depth + 2, seed=seed, cwd=d, timeout=600,
+                env={"JAVA_TOOL_OPTIONS": "-Xss512m -Xmx1200m"})
     lines = []
     for f in sorted(glob.glob(os.path.join(d, "sched_*.ndjson"))):
         with open(f) as fh:
@@ -176,6 +177,10 @@ def run(ctx):
     selftest = os.environ.get("VERIF_C17_SELFTEST", "")   # self-test of the binding only; never set in normal runs
     t0 = time.time()
     ctx.overlay()                                          # (written once, before any thread uses it)
+    # Up to ~20 TLC processes run side by side: cap their heaps (the JVM default is a quarter of the RAM each)
+    os.environ["JAVA_TOOL_OPTIONS"] = "-Xmx6g"             # the two monitor runs (they load all recorded vectors)
+    small = {"JAVA_TOOL_OPTIONS": "-Xss512m -Xmx1200m"}
+    mid = {"JAVA_TOOL_OPTIONS": "-Xss512m -Xmx3g"}
 
     # ------------------------------------------------------------------ U1 (design checks), in the background
     ring_cfgs = [("RingCheck_n1.cfg", "Nodes1", 7), ("RingCheck_n2.cfg", "Nodes2", 7)]
@@ -193,15 +198,15 @@ def run(ctx):
 
     u1 = []
     for name, _, _ in ring_cfgs:
-        u1.append(("RingCheck/" + name, Bg(ctx.tlc_must_pass, "RingCheck", name, workers=4, timeout=1200)))
-    u1.append(("Election/exhaustive-3-x", Bg(ctx.tlc_must_pass, "Election", "Election_x.cfg", workers=6, timeout=1500)))
-    u1.append(("Election/exhaustive-3-y", Bg(ctx.tlc_must_pass, "Election", "Election_y.cfg", workers=3, timeout=1500)))
+        u1.append(("RingCheck/" + name, Bg(ctx.tlc_must_pass, "RingCheck", name, workers=4, timeout=1200, env=small)))
+    u1.append(("Election/exhaustive-3-x", Bg(ctx.tlc_must_pass, "Election", "Election_x.cfg", workers=6, timeout=1500, env=mid)))
+    u1.append(("Election/exhaustive-3-y", Bg(ctx.tlc_must_pass, "Election", "Election_y.cfg", workers=3, timeout=1500, env=mid)))
     if thorough:
-        u1.append(("Election/exhaustive-3-z", Bg(ctx.tlc_must_pass, "Election", "Election_z.cfg", workers=8, timeout=1500)))
+        u1.append(("Election/exhaustive-3-z", Bg(ctx.tlc_must_pass, "Election", "Election_z.cfg", workers=8, timeout=1500, env=mid)))
     u1.append(("Election/simulate-4-5", Bg(ctx.tlc_must_pass, "Election", "Election_sim.cfg", workers=2,
-                                           simulate="num=%d" % (1200 if thorough else 100), depth=80, seed=ctx.seed, timeout=1500)))
+                                           simulate="num=%d" % (1200 if thorough else 100), depth=80, seed=ctx.seed, timeout=1500, env=small)))
     u1.append(("Election/simulate-3", Bg(ctx.tlc_must_pass, "Election", "Election_sim3.cfg", workers=1,
-                                         simulate="num=%d" % (2000 if thorough else 200), depth=80, seed=ctx.seed, timeout=1500)))
+                                         simulate="num=%d" % (2000 if thorough else 200), depth=80, seed=ctx.seed, timeout=1500, env=small)))
 
     # ------------------------------------------------------------------ schedules from the spec (as built)
     ngen, per, depth = (8, 250, 70) if thorough else (6, 40, 70)
@@ -336,7 +341,8 @@ def run(ctx):
         "election": {"schedules": len(sched), "traces": len(traces), "steps": steps, "events": dict(evs), "leaders_elected": elected,
                      "health_accepted": accepted, "health_mismatching_ring": mismatch, "health_stale": stale,
                      "node_crashes_observed": crashes, "steps_with_a_partitioned_node": partsteps,
-                     "schedule_events_skipped": skipped, "binding_steps_followed": r3.distinct, "binding_stuck": len(stuck)},
+                     "schedule_events_skipped": skipped,
+                     "traces_abandoned_for_ambiguous_timing": len(sched) - len(traces), "binding_steps_followed": r3.distinct, "binding_stuck": len(stuck)},
         "monitor_run": {"module": "Monitor_C17", "vectors": len(vectors)},
         "failing_laws": {"%s[%s]" % k: n for k, n in nfail.items()},
     })
